@@ -323,6 +323,8 @@ def writeinprofile(rng):
     decl = order[:-1]
     w = rng.randint(1, 3)
     top = rng.randint(9, 12)
+    if rng.random() < 0.25:
+        w = top + rng.randint(-1, 3)        # a write-in campaign: the undeclared candidate is at or above the threshold at once
     tallies = [top]
     dominant = rng.random() < 0.5
     if dominant:
@@ -331,18 +333,31 @@ def writeinprofile(rng):
         for _ in decl[1:]:
             tallies.append(max(1, tallies[-1] - rng.randint(1, 3)))
     lines = []
+    bullets = dominant and rng.random() < 0.6        # the leader's papers name nobody else: his surplus goes nowhere
+    if bullets:
+        nc_keep = rng.randint(3, 4)                   # few declared candidates: more seats than candidates with real support
+        decl, tallies = decl[:nc_keep], tallies[:nc_keep]
     for c, t in zip(decl, tallies):
         others = [x for x in decl if x != c]
-        k = rng.randint(0, t)
+        k = t if (bullets and c == decl[0]) else rng.randint(0, t)
         if k:
             lines.append((k, [c]))
         if t - k:
             lines.append((t - k, [c, rng.choice(others)]))
     lines.append((w, [W, rng.choice(decl[1:3])]))
     rng.shuffle(lines)
+    if bullets:
+        # renumber to a compact candidate list (the unused declared candidates are dropped)
+        used = decl + [W]
+        ren = {c: i + 1 for i, c in enumerate(sorted(used))}
+        lines = [(m, [ren[c] for c in r]) for m, r in lines]
+        nc = len(used)
+        W = ren[W]
+        if sum(m for m, _ in lines) < nc:
+            lines.append((nc, [ren[decl[0]]]))
     tie = list(range(1, nc + 1))
     rng.shuffle(tie)
-    return dict(nc=nc, seats=rng.choice([2, 3]) if dominant else rng.choice([1, 2, 2, 3]), lines=lines, tie=tie, withdrawn=[], undeclared=[W], eqlines=[])
+    return dict(nc=nc, seats=(2 if bullets else rng.choice([2, 3])) if dominant else rng.choice([1, 2, 2, 3]), lines=lines, tie=tie, withdrawn=[], undeclared=[W], eqlines=[])
 
 
 def surplustieprofile(rng):
